@@ -250,6 +250,16 @@ def one_fault(res, spec, year, forms, tmp, initial, full_answers, lookup, fault,
     F = hx.fields
     path = os.path.join(tmp, 'f.ini')
     annotated = fault[0] in ('sigint', 'eof', 'unsupported-form') and isinstance(fault[1], int) and fault[1] % 2 == 1
+    if fault[0] in ('sigint', 'eof') and isinstance(fault[1], int) and fault[1] % 3 == 0:
+        # the file also holds a value that does not validate (the user typed the choice in quotes, wrote "two" for a count ...):
+        # whatever the run does about it, the line the user wrote must still be in the file afterwards
+        I_ = hx.inputs
+        cand = [q for q in sorted(initial) if isinstance(lookup.get(q), (I_.BooleanInput, I_.IntegerInput, I_.FloatInput, I_.EnumInput))]
+        if cand:
+            q = cand[fault[1] % len(cand)]
+            initial = dict(initial)
+            initial[q] = f'"{initial[q]}"' if isinstance(lookup.get(q), I_.EnumInput) and initial[q] else 'not sure yet'
+            res.count('sessions_with_invalid_value_in_file')
     write_ini(path, initial, annotated=annotated)
     if annotated:
         res.count('sessions_from_annotated_file')
